@@ -6,3 +6,4 @@ pub mod layout;
 pub mod model;
 pub mod props;
 pub mod runner;
+pub mod shmutil;
